@@ -32,9 +32,15 @@ def body(c):
         "by exact integer determinants of {constraints, independent tuple}; "
         "and magnitude classes: network impedance level 1e-6..1e6 x z0 for "
         "the voltage/current family, z0 of 1e-3 / 1e5 ohm and mixed per "
-        "port for every function); every libvna call is made three times "
-        "(FP exception flags cleared / raised / after a singular-input call) "
-        "and must give bit-identical results; "
+        "port for every function; z0 equality patterns: every set partition "
+        "of the ports for n <= 4, selected ones for n = 5, 6, in three "
+        "flavours; zero patterns of the input matrix -- diagonal, triangular, "
+        "block-diagonal, single coupled pair, symmetric -- wherever the "
+        "spec's integer determinants say both ends exist); every libvna call "
+        "is made three times (FP exception flags cleared / raised / after a "
+        "singular-input call, separate output buffers pre-filled with three "
+        "different poison patterns) and must give bit-identical results with "
+        "every output cell written; "
         "%d seeded draws per case: a random "
         "n-port (or a structured network with random passive element "
         "values), its matrix of the input type built from the defining "
